@@ -262,7 +262,8 @@ PROPERTIES = {
                  harnesses=[dict(func="VerifC20MockTyping", reach=["C20/typing/decided", "C20/typing/kf-cardinality", "C20/typing/width"], quick=dict(budget=200), thorough=dict(budget=600)),
                             dict(func="VerifC20MockMapTypes", reach=["C20/map/decided"], quick=dict(budget=100), thorough=dict(budget=300)),
                             dict(func="VerifC20MockTree", reach=["C20/tree/decided"], quick=dict(budget=100), thorough=dict(budget=300))]),
-            dict(mode="E", schemas=[dict(name="mock", run="go,go-http", param="paths=source_relative;go-http:generate_mock=true")],
+            dict(mode="E", replay_repeat=10,  # the native mock draws its example with the real math/rand
+                 schemas=[dict(name="mock", run="go,go-http", param="paths=source_relative;go-http:generate_mock=true")],
                  load_pkgs=["./gen/mock"], pkgpath="verifmod/gen/mock", test_pkg="./gen/mock", test_pkgname="mock", init=[MOD + "/http", "verifmod/gen/mock"],
                  overlay={"gen/mock/zz_verif_c20.go": "harness/c20/c20_mock_e.go"},
                  harnesses=[dict(func="VerifC20Examples", reach=["C20/examples/decided"], quick=dict(budget=200), thorough=dict(budget=600))]),
